@@ -12,6 +12,8 @@ package main
 //   response:    verifYield("response.popped", id)  after   b.responders.Pop succeeded
 //   message:     verifYield("poll.register", id)    before  b.responders.Upsert
 //                verifYield("poll.timeout", id)     in the <-ctx.Done() branch
+//   subscribe:   verifYield("subscribe.checked", id) between topics.Load and topics.LoadOrStore
+//                (proposed: hooks/c19-push-subscribe.patch; the scenario subscribe-race needs it)
 //
 // A goroutine that reaches an armed point reports its arrival and is held until released.
 
@@ -206,6 +208,37 @@ func runForcedHooked(c *c19Case, obs *c19Obs) {
 		}
 		out["poll2"] = p2.res
 		out["pub2"] = e.unicast("p1", "", 7, 43, 1)
+	case "subscribe-race":
+		// two subscribes of one client and topic: the second has passed the existence check and is held
+		// before its insert; the first completes; a publish is accepted; the second inserts; the client polls
+		e := newEnv(c.TimeoutMs, c.HeartbeatMs)
+		defer e.close()
+		g := ct.arm("subscribe.checked")
+		s2 := make(chan string, 1)
+		go func() { r, _ := e.subscribe(1, 7); s2 <- r }()
+		if !waitCh(g.arrived, long) {
+			obs.Err = "the second subscribe never reached the point between check and insert"
+			return
+		}
+		out["sub1"], _ = e.subscribe(1, 7)
+		out["pub"] = e.unicast("p1", "", 7, 42, 1)
+		close(g.release)
+		select {
+		case r := <-s2:
+			out["sub2"] = r
+		case <-time.After(long):
+			obs.Err = "the second subscribe never returned"
+			return
+		}
+		p1 := startPoll(e, 1)
+		if done, ok := waitRegistered(e, 1, p1); done {
+			out["poll1"] = p1.res
+		} else if ok {
+			out["poll1"] = "W"
+			waitCh(p1.done, long)
+		} else {
+			obs.Err = "the poll neither returned nor waited"
+		}
 	default:
 		obs.Err = "unknown scenario " + c.Scenario
 	}
